@@ -552,11 +552,14 @@ func (cs *clientStream) doHttpCall(transport http.RoundTripper, req *http.Reques
 			// final message is a trailer (need lock to write to cs.tr)
 			cs.rMu.Lock()
 			rMuHeld = true // defer above will unlock for us
-			cs.rErr = readProtoMessage(reply.Body, cs.codec, int32(-sz), &cs.tr)
-			if cs.rErr != nil {
-				if cs.rErr == io.EOF {
-					cs.rErr = io.ErrUnexpectedEOF
-				}
+			err := readProtoMessage(reply.Body, cs.codec, int32(-sz), &cs.tr)
+			if err == io.EOF {
+				err = io.ErrUnexpectedEOF
+			}
+			// a failure that RecvMsg has already reported (more than one response
+			// on a single-response method) is not undone by the trailer
+			if cs.rErr == nil {
+				cs.rErr = err
 			}
 			if len(cs.tr.Metadata) > 0 && len(cs.copts.Trailers) > 0 {
 				cs.copts.SetTrailers(metadataFromProto(cs.tr.Metadata))
